@@ -1,4 +1,4 @@
-import UF.Proofs.RequestLabels
+import UF.Proofs.RequestRef
 /-
   C17 — request fields agree with the standard URL parser and the Public Suffix List.
 
@@ -8,7 +8,7 @@ import UF.Proofs.RequestLabels
   (hypothesis where needed: it answers with a dot-suffix of the hostname).  `net/url` and the PSL
   data themselves are compared in Go by the `assert c17.*` ops of the correspondence check.
 -/
-namespace UF
+namespace UF.H
 open Bytes
 
 /-- For a well-formed hierarchical URL
@@ -190,15 +190,83 @@ theorem c17_total (ext : Ext) (url src : Bytes) (t : Nat) :
   · obtain ⟨e, _, hq⟩ := fill_hostname ext {} url
     exact ⟨_, hq⟩
 
+/-- On the URL grammar of the property (request URL `scheme://host tail`, a source of the same
+    shape, both within the 4 KiB cap, hosts without empty labels, PSL oracle answering a
+    dot-suffix) `NewRequest` returns exactly the reference request: hostname = the grammar's host,
+    domain = public suffix plus one label (or the host), third-party = "source domain differs". -/
+theorem c17_request_eq_ref (ext : Ext) (scheme host tail sscheme shost stail : Bytes) (t : Nat)
+    (hu : goodURLParts scheme host tail = true) (hs : goodURLParts sscheme shost stail = true)
+    (hlen : (scheme ++ lit "://" ++ host ++ tail).length ≤ Facts.maxURLLength)
+    (hslen : (sscheme ++ lit "://" ++ shost ++ stail).length ≤ Facts.maxURLLength)
+    (hn : noEmptyLabel host = true) (hp : pslIsDotSuffix ext host)
+    (hsn : noEmptyLabel shost = true) (hsp : pslIsDotSuffix ext shost) :
+    ∃ q, newRequest ext (scheme ++ lit "://" ++ host ++ tail) (sscheme ++ lit "://" ++ shost ++ stail) t = .ok q ∧
+      refRequest ext (scheme ++ lit "://" ++ host ++ tail) (sscheme ++ lit "://" ++ shost ++ stail) t = some q ∧
+      q.hostname = host ∧ q.sourceHostname = shost := by
+  obtain ⟨a, b, e, se, h1, h2, h3, h4, hq⟩ :=
+    newRequest_eq ext (scheme ++ lit "://" ++ host ++ tail) (sscheme ++ lit "://" ++ shost ++ stail) t
+  rw [List.take_of_length_le hlen] at h1 hq
+  rw [List.take_of_length_le hslen] at h2 hq
+  obtain ⟨u1, u2, e', u3, u4⟩ := url_side ext scheme host tail hu hn hp
+  obtain ⟨s1, s2, se', s3, s4⟩ := url_side ext sscheme shost stail hs hsn hsp
+  rw [u1] at h1; cases h1
+  rw [s1] at h2; cases h2
+  rw [u3] at h3; cases h3
+  rw [s3] at h4; cases h4
+  refine ⟨_, hq, ?_, rfl, rfl⟩
+  unfold refRequest
+  rw [List.take_of_length_le hlen, List.take_of_length_le hslen]
+  have hsne : (sscheme ++ lit "://" ++ shost ++ stail).isEmpty = false := by
+    have := (goodURLParts_unpack hs).1
+    cases sscheme with
+    | nil => exact absurd rfl this
+    | cons c r => rfl
+  simp only [hsne, Bool.false_eq_true, if_false, u2, s2, hn, hsn, Bool.or_true, Bool.and_self, Bool.not_true]
+  rw [u4, s4]
+  congr 2
+  unfold refThirdParty
+  generalize refDomain ext shost = S
+  generalize refDomain ext host = D
+  cases S with
+  | nil => simp
+  | cons y ys => by_cases h : y :: ys = D <;> simp [h]
+
+/-- The same without a source (`sourceURL = ""`): never third-party. -/
+theorem c17_request_eq_ref_nosrc (ext : Ext) (scheme host tail : Bytes) (t : Nat)
+    (hu : goodURLParts scheme host tail = true)
+    (hlen : (scheme ++ lit "://" ++ host ++ tail).length ≤ Facts.maxURLLength)
+    (hn : noEmptyLabel host = true) (hp : pslIsDotSuffix ext host) :
+    ∃ q, newRequest ext (scheme ++ lit "://" ++ host ++ tail) [] t = .ok q ∧
+      refRequest ext (scheme ++ lit "://" ++ host ++ tail) [] t = some q ∧
+      q.hostname = host ∧ q.thirdParty = false := by
+  obtain ⟨a, b, e, se, h1, h2, h3, h4, hq⟩ := newRequest_eq ext (scheme ++ lit "://" ++ host ++ tail) [] t
+  rw [List.take_of_length_le hlen] at h1 hq
+  simp only [List.take_nil] at h2 hq
+  obtain ⟨u1, u2, e', u3, u4⟩ := url_side ext scheme host tail hu hn hp
+  obtain ⟨s1, se', s3, s4⟩ := empty_side ext
+  rw [u1] at h1; cases h1
+  rw [s1] at h2; cases h2
+  rw [u3] at h3; cases h3
+  rw [s3] at h4; cases h4
+  have hsd : refDomain ext [] = [] := by
+    unfold refDomain refETLD1
+    have hk : (splitByte (ext.psl []).1 (ch '.')) ≠ [] := splitByte_go_ne_nil _ _ _
+    have : (splitByte [] (ch '.')).length ≤ (splitByte (ext.psl []).1 (ch '.')).length := by
+      have h1 : (splitByte [] (ch '.')).length = 1 := by decide
+      have h2 : 0 < (splitByte (ext.psl []).1 (ch '.')).length := List.length_pos_iff.mpr hk
+      omega
+    simp [this]
+  rw [s4, hsd] at hq
+  refine ⟨_, hq, ?_, rfl, by simp⟩
+  unfold refRequest
+  rw [List.take_of_length_le hlen]
+  simp only [List.take_nil, List.isEmpty_nil, if_true, u2, hn, Bool.and_self, Bool.not_true,
+    Bool.false_eq_true, if_false, Bool.true_or]
+  rw [u4, hsd]
+  simp [refThirdParty]
+
 /-! Non-vacuity -/
 
-def c17Ext : Ext where
-  psl := fun h =>
-    if hasSuffix h (lit "co.uk") then (lit "co.uk", true)
-    else if hasSuffix h (lit "com") then (lit "com", true) else ([], false)
-  parseAddr := fun _ => none
-  parsePrefix := fun _ => none
-  pat := fun _ _ _ => false
 
 example : (effectiveTLDPlusOne c17Ext (lit "www.example.co.uk")).toOption = some (lit "example.co.uk") := by decide
 example : (effectiveTLDPlusOne c17Ext (lit "co.uk")).toOption = some [] := by decide
@@ -208,7 +276,12 @@ example : noEmptyLabel (lit "www.example.co.uk") = true ∧
 example : (newRequest c17Ext (lit "https://www.example.co.uk:8080/a?b") (lit "http://cdn.other.com/") 4).toOption.map
     (fun q => (q.hostname, q.domain, q.sourceDomain, q.thirdParty)) =
     some (lit "www.example.co.uk", lit "example.co.uk", lit "other.com", true) := by decide
+/-- The hypotheses of `c17_request_eq_ref` are satisfiable. -/
+example : goodURLParts (lit "https") (lit "www.example.co.uk") (lit ":8080/a?b#c") = true ∧
+    goodURLParts (lit "http") (lit "cdn.other.com") (lit "/") = true ∧
+    pslIsDotSuffix c17Ext (lit "www.example.co.uk") ∧ pslIsDotSuffix c17Ext (lit "cdn.other.com") :=
+  ⟨by decide, by decide, Or.inr ⟨lit "www.example", by decide⟩, Or.inr ⟨lit "cdn.other", by decide⟩⟩
 /-- The non-hierarchical branch really takes "index of ':' minus one". -/
 example : (extractHostname (lit "stun:example.org")).toOption = some (lit "n") := by decide
 
-end UF
+end UF.H
